@@ -11,12 +11,15 @@
 //   sendq (w|e|<k>)… | recvq (w|e|z|<k>)… | acceptq (0|1)… | connq <err>…
 //
 // Output: one line per observable event (same vocabulary as ServerLoopSpec.ev) and after every
-// operation a state line  st clk=… | <internal structure> .
+// operation a state line  st clk=… | <internal structure> .  Every iteration of run() (right after
+// the loop sampled the clock) prints  sel <buffered events of the Poll object, in order>  (private
+// state of Socket::Poll, read through the Socket.cpp of the tree under test compiled into this unit).
 #include "vh.hpp"
 #include <errno.h>
 #include "serverloop_kernel.h"
 #define private public
 #define protected public
+#include <Socket/Socket.cpp>
 #include <Socket/Server.cpp>
 #undef private
 #undef protected
@@ -146,6 +149,29 @@ static void k_foreign()
   server->interrupt();
 }
 
+// the selected-but-undelivered events of the Poll object, in the order they will be delivered
+static void sel_dump(char* buf, size_t cap)
+{
+  Socket::Poll::Private* pp = server->_p->_sockets.p;
+  size_t n = 0; buf[0] = 0;
+  for(HashMap<Socket*, uint>::Iterator i = pp->selectedSockets.begin(), end = pp->selectedSockets.end(); i != end; ++i) {
+    Socket* so = i.key();
+    char kind = '?'; long id = -1;
+    for(long k = 0; k < NID && id < 0; ++k) if(calive[k] && (Socket*)(SP::ClientImpl*)ch[k] == so) { kind = 'c'; id = k; }
+    for(long k = 0; k < NID && id < 0; ++k) if(lalive[k] && (Socket*)(SP::ListenerImpl*)lh[k] == so) { kind = 'l'; id = k; }
+    for(long k = 0; k < NID && id < 0; ++k) if(ealive[k] && (Socket*)(SP::EstablisherImpl*)eh[k] == so) { kind = 'e'; id = k; }
+    n += snprintf(buf + n, cap - n, "%s%c%ld:%u", n ? "," : "", kind, id, (unsigned)*i);
+    if(n >= cap - 64) break;
+  }
+  if(!n) snprintf(buf, cap, "-");
+}
+static void k_now()
+{
+  static char sel[8192];
+  sel_dump(sel, sizeof(sel));
+  emitf("sel %s", sel);
+}
+
 // ---- operations ------------------------------------------------------------------------------------------
 static unsigned char zeros[1 << 16];
 
@@ -178,8 +204,9 @@ static void exec_action(char* line)
   } else if(!strcmp(op, "rmclient")) {
     if(!inr(i) || !calive[i]) { emit("skip"); return; }
     server->remove(*ch[i]);
-    if(i == intro_client) emitf("deferred c%ld", i);
-    else { calive[i] = false; emitf("removed c%ld", i); }
+    calive[i] = false;      // remove() has returned: the test never touches the client again
+    if(i == intro_client) emitf("deferred c%ld", i);    // … from inside the onAccepted/onConnected that announces it
+    else emitf("removed c%ld", i);
   } else if(!strcmp(op, "listen")) {
     if(!inr(i) || lused[i]) { emit("skip"); return; }
     emitf("created l%ld 0 0", i);
@@ -238,7 +265,7 @@ static int cmp_long(const void* a, const void* b) { long x = *(const long*)a, y 
 static void state_line()
 {
   SP* p = server->_p;
-  static char q[8192], closing[4096], cl[8192], reg[8192];
+  static char q[8192], closing[4096], cl[8192], reg[8192], sel[8192];
   size_t n = 0; q[0] = 0;
   for(MultiMap<int64, SP::TimerImpl*>::Iterator i = p->_queuedTimers.begin(), end = p->_queuedTimers.end(); i != end; ++i) {
     long id = -1;
@@ -273,11 +300,12 @@ static void state_line()
   }
   if(!n) strcpy(cl, "-");
   slk_reg_dump(reg, sizeof(reg));
-  printf("%ld st clk=%lld | q=%s closing=%s intr=%d pool=t:%llu,l:%llu,e:%llu,c:%llu cl=%s reg=%s evfd=%d\n", caseno, slk_clock(),
+  sel_dump(sel, sizeof(sel));
+  printf("%ld st clk=%lld | q=%s closing=%s intr=%d pool=t:%llu,l:%llu,e:%llu,c:%llu cl=%s reg=%s sel=%s evfd=%d\n", caseno, slk_clock(),
          q, closing, p->_interrupted ? 1 : 0,
          (unsigned long long)p->_timers.size(), (unsigned long long)p->_listeners.size(),
          (unsigned long long)p->_establishers.size(), (unsigned long long)p->_clients.size(),
-         cl, reg, slk_evfd_readable());
+         cl, reg, sel, slk_evfd_readable());
   fflush(stdout);
 }
 
@@ -300,7 +328,7 @@ static void begin(long c, vh::Tok&)
   memset(ealive, 0, sizeof(ealive)); memset(eused, 0, sizeof(eused));
   for(long k = 0; k < NID; ++k) { tcb[k].id = ccb[k].id = lcb[k].id = ecb[k].id = k; }
   intro_client = -1;
-  slk_reset(emit, k_peek, k_announce, k_foreign);
+  slk_reset(emit, k_peek, k_announce, k_foreign, k_now);
   slk_arm(1);
   server = new Server;
 }
